@@ -471,7 +471,7 @@ class Interp:
         self.cycles: dict[Any, int] = {}
         self.cycle_expr: dict[Any, Any] = {}
         self.cycle_val: dict[Any, Any] = {}
-        self.offsets: dict[str, tuple[int, bool]] = {}
+        self.offsets: dict[str, tuple[int, bool, int]] = {}
         self.offset_items: dict[str, list[Any]] = {}
         self.active_keys: list[str] = []
         self.macros: dict[str, dict[str, Any]] = {}
@@ -953,9 +953,11 @@ class Interp:
             if key not in self.offsets and any(k != key and k.startswith(s["var"] + "-") and v == items and items
                                                for k, v in self.offset_items.items()):
                 raise Undoc("offset:continue after a loop over an equal iterable written differently")
-            offset, exact = self.offsets.get(key, (0, True))
+            offset, exact, low = self.offsets.get(key, (0, True, 0))
             if not exact and len(items) > offset:
                 raise Undoc("offset:continue after a limit that ran past the end")
+            if low != offset and len(items) > low:
+                raise Undoc("offset:continue after an explicit offset beyond the end of the sequence")
             self.trace.add("for:continue")
         elif off is not None:
             offset = self._count(off, "offset")
@@ -964,7 +966,10 @@ class Interp:
         sliced = items[offset:] if limit is None else items[offset:offset + limit]
         # CTS 'offset, continue, broken': the next loop continues after the sliced window, not after
         # the last item actually rendered; a limit running past the end leaves the position open
-        self.offsets[key] = (offset + len(sliced), limit is None or offset + limit <= len(items))
+        # an explicit offset beyond the end: 'where the previous loop left off' is the end of the sequence
+        # or the offset itself; the docs do not say, so a later continue that can tell is undetermined
+        self.offsets[key] = (offset + len(sliced), limit is None or offset + limit <= len(items),
+                             min(offset, len(items)) + len(sliced))
         self.offset_items[key] = items
         if s.get("reversed"):
             sliced = list(reversed(sliced))
